@@ -21,7 +21,7 @@ func coreC04(tier string) []RunSpec {
 	var out []RunSpec
 	for mk := 0; mk < c04NumMut; mk++ {
 		for via := 0; via < 2; via++ {
-			for rot := 0; rot < 2; rot++ {
+			for rot := 0; rot < 3; rot++ { // 0 none, 1 restart with rotation, 2 interrupted rotation + restart
 				out = append(out, RunSpec{Profile: "core:forge", Params: map[string]int{"mut": mk, "via": via, "rot": rot}})
 			}
 		}
@@ -214,8 +214,17 @@ func runC04(rc *RunCtx) {
 	}
 	// weights:       fund swap melt resolve replay dup race checkstate restore restart clock adv internal rotate
 	weights := []int{1, 3, 2, 0, 1, 1, 0, 0, 0, 2, 0, 1, 0, 1}
+	if rc.P("rot", 0) == 2 {
+		m.StepRotateInterrupted()
+		m.StepFund() // an ordinary step, not harness setup: a refusal is the mint's doing
+	}
 	rc.StepLoop(2, 12, func(i int) {
 		m.step = i
+		if rc.P("rot", 0) == 0 && T.Chance("irot", 1, 10) {
+			// the key material of every keyset must survive an interrupted rotation + restart
+			m.StepRotateInterrupted()
+			return
+		}
 		if i%2 == 0 || T.Chance("forge", 1, 2) {
 			m.StepForge(forceMut, forceVia)
 		} else {
